@@ -9,7 +9,7 @@ def main():
     c = Check("C03", a.tier, a.seed)
     if a.replay:
         r = json.load(open(a.replay)); c.seed, c.tier = r["seed"], r["tier"]
-    ok_mk, log = c.make(["Props/C03.vo"])
+    ok_mk, log = c.make(["Props/C03.vo", "Model/Plonk.vo"])
     thms = theorems_of("Props/C03.v")
     assumptions = c.audit("Props.C03", thms) if ok_mk and thms else {}
     binary = c.build_harness("release")
@@ -38,6 +38,13 @@ def main():
                 fails.append({"form": FORM[form], "base": base, "kind": kind, "path": path, "outcome": outcome, "why": bad})
             elif len(samples) < 8 and n % 997 == 0:
                 samples.append(line.strip()[:200])
+    total, mism = (0, 0), []
+    if ok_mk and binary:
+        cli = c.build_model_cli()
+        if cli:
+            counts, mism, total = c.run_model(cli, "plonk", casefile)
+            if mism:
+                c.broken.append("Gallina PLONK verifier (Model/Plonk.v) disagrees with the implementation on %d tampered proofs, first: %s" % (total[1], mism[0][:200]))
     seen = set()
     for f in fails:
         if f["why"] in seen:
@@ -50,6 +57,7 @@ def main():
         "evaluations": n, "distinct_nontrivial": len(positions),
         "rule": "serde tree of accepted proofs: every number leaf (field element, digest limb, PoW witness, public input) x {+1, 0/1, random}; every array x {drop last, empty, duplicate last}; plain and compressed forms; other circuits' verifier data. quick tier samples leaves with a stride, thorough is exhaustive over positions; distinct = positions touched",
         "samples": samples or ["none"], "distribution": dist, "accepted_alterations": len(fails),
+        "model_verifier_cases": total[0], "model_verifier_mismatches": total[1],
         "exhaustive": a.tier == "thorough",
         "obligations": len(thms), "discharged": len([t for t in thms if assumptions.get(t, "").startswith("Closed")]),
         "theorems": {t: assumptions.get(t, "not checked") for t in thms},
